@@ -68,7 +68,8 @@ def _rel_path(draw, depth, max_steps):
 
 _ALL_AXES = ('child', 'descendant', 'descendant-or-self', 'following', 'following-sibling', 'self', 'attribute', 'namespace',
              'parent', 'ancestor', 'ancestor-or-self', 'preceding', 'preceding-sibling')
-_REVERSE = ('parent', 'ancestor', 'ancestor-or-self', 'preceding', 'preceding-sibling')
+_REVERSE = ('parent', 'ancestor', 'ancestor', 'ancestor-or-self', 'ancestor-or-self', 'preceding', 'preceding', 'preceding',
+            'preceding-sibling', 'preceding-sibling', 'preceding-sibling')
 _SIMPLE_ATTR = st.sampled_from([['any'], ['any'], ['name', None, 'x'], ['name', None, 'y'], ['name', None, 'id'], ['nsany', 'p'], ['nsany', 'r']])
 
 
@@ -77,17 +78,17 @@ def _easy_pred(draw):
     """a non-positional predicate that is often true: [@x] [@*] [node()] [@x = 'v'] [not(@y)]"""
     k = draw(st.integers(0, 11))
     att = ['path', 0, [['/', 'attribute', draw(_SIMPLE_ATTR), [], 1]]]
-    if k < 4:
+    if k < 3:
         return ['exists', att]
-    if k < 6:
+    if k < 5:
         return ['exists', ['path', 0, [['/', 'child', ['node'], [], 1]]]]
-    if k < 8:
+    if k < 7:
         return ['not', ['exists', att]]
-    if k < 9:
+    if k < 8:
         return ['cmp', att, draw(st.sampled_from(['=', '!='])), draw(st.sampled_from(['v', 't', '1', '']))]
     if k < 10:
         return ['exists', ['path', 0, [['/', 'self', ['node'], [], 0]]]]
-    return ['count', ['path', 0, [['/', 'child', ['any'], [], 1]]], draw(st.sampled_from(['>=', '<', '='])), draw(st.integers(0, 1))]
+    return ['count', ['path', 0, [['/', 'child', ['any'], [], 1]]], draw(st.sampled_from(['>=', '>=', '<', '='])), draw(st.integers(0, 1))]
 
 
 _positional = st.one_of(st.sampled_from([['num', 1], ['num', 1], ['num', 2], ['last'], ['lastminus', 1]]),
@@ -100,7 +101,7 @@ def paren_step(draw, depth=0):
     document order, whatever the axis (XPath 1.0 2.4 / 3.3).  All 13 axes, reverse axes half of the time; the last
     predicate is positional, the earlier ones mostly not; optionally followed by one more step."""
     axis = draw(st.sampled_from(_REVERSE)) if draw(st.booleans()) else draw(st.sampled_from(_ALL_AXES))
-    test = draw(_test_for(axis, loose=draw(st.integers(0, 3)) > 0))
+    test = draw(_test_for(axis, loose=draw(st.integers(0, 5)) > 0))
     inner_preds = [draw(_easy_pred())] if draw(st.integers(0, 5)) == 0 else []
     npred = draw(st.sampled_from([2, 2, 2, 3]))
     preds = []
@@ -157,7 +158,7 @@ def _path(draw, max_steps, depth=0):
 
 @st.composite
 def path_asts(draw, max_steps=4):
-    k = draw(st.integers(0, 25))
+    k = draw(st.integers(0, 27))
     if k < 15:
         return draw(_path(max_steps))
     if k < 18:
@@ -167,12 +168,15 @@ def path_asts(draw, max_steps=4):
         return ['fpath', inner, preds, steps]
     if k < 20:
         return ['union', draw(st.lists(_path(3), min_size=2, max_size=3))]
-    if k < 23:
+    if k < 25:
         return draw(paren_step(0))
     # //t[(preceding-sibling::s)[@k][1]/@id = 'x']: the context nodes of the parenthesised step are spread over the tree
-    ps = draw(paren_step(0))
-    pred = ['cmp', ps, draw(st.sampled_from(['=', '!='])), draw(st.sampled_from(_LITERALS))] if draw(st.integers(0, 2)) == 0 \
-        else ['exists', ps]
+    # (only a comparison of the selected node is sensitive to which node the positional predicate picks; exists/count are not)
+    ps = draw(paren_step(1))
+    ps[3] = draw(st.sampled_from([[], [['/', 'attribute', ['any'], [], 1]], [['/', 'attribute', ['name', None, 'id'], [], 1]],
+                                  [['/', 'attribute', ['name', None, 'x'], [], 1]], [['/', 'child', ['text'], [], 1]]]))
+    pred = ['exists', ps] if draw(st.integers(0, 5)) == 0 else \
+        ['cmp', ps, draw(st.sampled_from(['=', '=', '!='])), draw(st.sampled_from(['v', 't', '1', 'x y', '']))]
     return ['path', draw(st.sampled_from([0, 2, 2, 2])), [['/', draw(st.sampled_from(['child', 'child', 'descendant', 'self'])),
                                                            draw(st.sampled_from([['any'], ['any'], ['node'], ['node'], ['name', None, 'a']])),
                                                            [pred], 1]]]
